@@ -1752,7 +1752,9 @@ class PCE500Emulator:
         self._irq_pending = bool(interrupts.get("pending", False))
         self._in_interrupt = bool(interrupts.get("in_interrupt", False))
         source_name = interrupts.get("source")
-        self._irq_source = IRQSource[source_name] if source_name else None
+        # The Rust core also records software interrupts ("IR"); sources this enum does
+        # not know carry no pending hardware request.
+        self._irq_source = IRQSource.__members__.get(source_name) if source_name else None
         self._interrupt_stack = list(interrupts.get("stack", []))
         self._next_interrupt_id = int(interrupts.get("next_id", 1))
         self._key_irq_latched = bool(interrupts.get("key_irq_latched", False))
